@@ -159,7 +159,9 @@ def rule_pin_validate(ctx):
     b = ctx.prog.body(PIN)
     r.functions.add(PIN)
     nexit = nretry = 0
-    for p in ctx.ex.paths(b):
+    # (both arms of `if cfg!(x86 ..)`: the publication is an RMW on x86 and a store + fence elsewhere; the arm that is dead
+    #  in this build is another architecture's live code)
+    for p in Exec(ctx.prog, all_cfg_arms=True).paths(b):
         if p.exit[0] == "diverge":
             continue
         r.paths += 1
